@@ -414,13 +414,19 @@ func UtxoValidateInsufficientCollateral(
 	if fee == nil {
 		fee = new(big.Int)
 	}
-	minCollateral := new(
-		big.Int,
-	).Mul(fee, new(big.Int).SetUint64(uint64(tmpPparams.CollateralPercentage)))
-	minCollateral.Div(minCollateral, big.NewInt(100))
-	if totalCollateral.Cmp(minCollateral) >= 0 {
+	// totalCollateral * 100 must cover fee * collateralPercentage exactly; a
+	// truncating division would round in the transaction's favour
+	requiredScaled := new(big.Int).Mul(
+		fee,
+		new(big.Int).SetUint64(uint64(tmpPparams.CollateralPercentage)),
+	)
+	providedScaled := new(big.Int).Mul(totalCollateral, big.NewInt(100))
+	if providedScaled.Cmp(requiredScaled) >= 0 {
 		return nil
 	}
+	// minCollateral = ceil(fee * collateralPercentage / 100)
+	minCollateral := new(big.Int).Add(requiredScaled, big.NewInt(99))
+	minCollateral.Div(minCollateral, big.NewInt(100))
 	// Convert to uint64 for error struct (best effort)
 	var providedU, requiredU uint64
 	if totalCollateral.IsUint64() {
